@@ -481,4 +481,114 @@ theorem generate_injective (p : Params w) (hp : MixInj p) (c1 c2 : Core w)
   simp only [Core.mk.injEq]
   exact ⟨hm'', ha'', hbb, hcc⟩
 
+/-! ## `.mem`-level statements, sizes -/
+
+theorem init_one_mem (p : Params w) (m : Array (BitVec w)) :
+    (init p m 1).mem = (mpass p (m, p.golden)).1 := by rw [init_one]
+
+theorem init_two_mem (p : Params w) (m : Array (BitVec w)) :
+    (init p m 2).mem = (mpass p (mpass p (m, p.golden))).1 := by rw [init_two]
+
+theorem init_abc (p : Params w) (m : Array (BitVec w)) (r : Nat) :
+    (init p m r).a = 0 ∧ (init p m r).b = 0 ∧ (init p m r).c = 0 := by
+  rw [IsaacRefine.init_eq]
+  exact ⟨rfl, rfl, rfl⟩
+
+theorem init_one_mem_injective (p : Params w) (hmix : ∀ x y, p.mix x = p.mix y → x = y)
+    (m1 m2 : Array (BitVec w)) (hs1 : m1.size = 256) (hs2 : m2.size = 256)
+    (h : (init p m1 1).mem = (init p m2 1).mem) : m1 = m2 := by
+  rw [init_one_mem, init_one_mem] at h
+  exact mpass_injective p hmix p.golden m1 m2 hs1 hs2 h
+
+theorem init_two_mem_injective (p : Params w) (hmix : ∀ x y, p.mix x = p.mix y → x = y)
+    (m1 m2 : Array (BitVec w)) (hs1 : m1.size = 256) (hs2 : m2.size = 256)
+    (h : (init p m1 2).mem = (init p m2 2).mem) : m1 = m2 := by
+  rw [init_two_mem, init_two_mem] at h
+  exact mpass_mpass_injective p hmix p.golden m1 m2 hs1 hs2 h
+
+theorem mpass_size (p : Params w) (acc : Array (BitVec w) × Oct w) :
+    (mpass p acc).1.size = acc.1.size := by rw [mpass_eq_run, size_run]
+
+theorem init_size (p : Params w) (m : Array (BitVec w)) (r : Nat) (hs : m.size = 256) :
+    (init p m r).mem.size = 256 := by
+  rw [IsaacRefine.init_eq]
+  show ((List.range r).foldl (fun acc _ => mpass p acc) (m, p.golden)).1.size = 256
+  exact foldl_pres (fun acc : Array (BitVec w) × Oct w => acc.1.size = 256) _ _
+    (fun s _ _ h => by rw [mpass_size]; exact h) (m, p.golden) hs
+
+theorem generate_size (p : Params w) (c : Core w) (r : Array (BitVec w)) (hs : c.mem.size = 256) :
+    (generate p c r).2.mem.size = 256 := by
+  simp only [generate_snd]
+  have q : (st0 c r).mem.size = 256 := hs
+  exact halfLoop_size p _ _ _ (halfLoop_size p _ _ _ q)
+
+/-! ## the next core does not depend on the results buffer -/
+
+theorem rstep_congr (p : Params w) (f : BitVec w → BitVec w) (base m m2 : Nat) (s1 s2 : GenSt w)
+    (h : SameCore s1 s2) : SameCore (rstep p f base m m2 s1) (rstep p f base m m2 s2) := by
+  obtain ⟨hm, ha, hb⟩ := h
+  have hA : ∀ q, stepA f s1 q = stepA f s2 q := by
+    intro q; unfold stepA; rw [hm, ha]
+  have hY : stepY p f s1 (base + m) (base + m2) = stepY p f s2 (base + m) (base + m2) := by
+    unfold stepY; rw [hA, hm, hb]
+  have hM : (rstep p f base m m2 s1).mem = (rstep p f base m m2 s2).mem := by
+    rw [rstep_mem, rstep_mem, hY, hm]
+  refine ⟨hM, ?_, ?_⟩
+  · rw [rstep_a, rstep_a, hA]
+  · rw [rstep_b, rstep_b, hM, hY, hm]
+
+theorem quad_congr (p : Params w) (m m2 : Nat) (s1 s2 : GenSt w) (j : Nat) (h : SameCore s1 s2) :
+    SameCore (quad p m m2 s1 j) (quad p m m2 s2 j) := by
+  unfold quad
+  exact rstep_congr _ _ _ _ _ _ _ (rstep_congr _ _ _ _ _ _ _ (rstep_congr _ _ _ _ _ _ _
+    (rstep_congr _ _ _ _ _ _ _ h)))
+
+theorem foldl_congr {σ ι : Type} (E : σ → σ → Prop) (F : σ → ι → σ) (l : List ι)
+    (hF : ∀ s1 s2 i, E s1 s2 → E (F s1 i) (F s2 i)) :
+    ∀ s1 s2, E s1 s2 → E (l.foldl F s1) (l.foldl F s2) := by
+  induction l with
+  | nil => intro s1 s2 h; exact h
+  | cons i l ih =>
+    intro s1 s2 h
+    rw [List.foldl_cons, List.foldl_cons]
+    exact ih _ _ (hF s1 s2 i h)
+
+theorem halfLoop_congr (p : Params w) (m m2 : Nat) (s1 s2 : GenSt w) (h : SameCore s1 s2) :
+    SameCore (halfLoop p s1 m m2) (halfLoop p s2 m m2) := by
+  rw [halfLoop_eq, halfLoop_eq]
+  exact foldl_congr SameCore (quad p m m2) _ (fun a b j hab => quad_congr p m m2 a b j hab) s1 s2 h
+
+/-- the core after `generate` is the same whatever the results buffer held -/
+theorem generate_snd_indep (p : Params w) (c : Core w) (r1 r2 : Array (BitVec w)) :
+    (generate p c r1).2 = (generate p c r2).2 := by
+  have h0 : SameCore (st0 c r1) (st0 c r2) := ⟨rfl, rfl, rfl⟩
+  obtain ⟨hm, ha, hb⟩ := halfLoop_congr p MIDPOINT 0 _ _ (halfLoop_congr p 0 MIDPOINT _ _ h0)
+  rw [generate_snd, generate_snd, Core.mk.injEq]
+  exact ⟨hm, ha, hb, rfl⟩
+
+/-- the core transition of the block generator -/
+def nextCore (p : Params w) (c : Core w) : Core w := (generate p c #[]).2
+
+theorem generate_snd_eq_nextCore (p : Params w) (c : Core w) (r : Array (BitVec w)) :
+    (generate p c r).2 = nextCore p c := generate_snd_indep p c r #[]
+
+theorem nextCore_injective (p : Params w) (hp : MixInj p) (c1 c2 : Core w)
+    (hs1 : c1.mem.size = 256) (hs2 : c2.mem.size = 256) (h : nextCore p c1 = nextCore p c2) : c1 = c2 :=
+  generate_injective p hp c1 c2 #[] #[] hs1 hs2 h
+
+theorem iter_nextCore_size (p : Params w) (k : Nat) (c : Core w) (hs : c.mem.size = 256) :
+    (iter (nextCore p) k c).mem.size = 256 := by
+  induction k with
+  | zero => exact hs
+  | succ k ih => exact generate_size p _ _ ih
+
+/-- two different cores never merge, however many blocks are generated -/
+theorem iter_nextCore_injective (p : Params w) (hp : MixInj p) (k : Nat) (c1 c2 : Core w)
+    (hs1 : c1.mem.size = 256) (hs2 : c2.mem.size = 256)
+    (h : iter (nextCore p) k c1 = iter (nextCore p) k c2) : c1 = c2 := by
+  induction k with
+  | zero => exact h
+  | succ k ih =>
+    exact ih (nextCore_injective p hp _ _ (iter_nextCore_size p k c1 hs1) (iter_nextCore_size p k c2 hs2) h)
+
 end Rngs.IsaacInj
